@@ -3,6 +3,7 @@ package ast
 // C08: equality, hashing and printing of terms agree.
 
 import (
+	"unicode/utf8"
 	"fmt"
 	"math"
 )
@@ -218,4 +219,29 @@ func VxC08MapOrder() {
 	vxReach("built")
 	vxAssert(m1.Equals(m2), "same-pairs-any-order-equal")
 	vxAssert(m1.Hash() == m2.Hash(), "same-pairs-any-order-equal-hash")
+}
+
+// VxC08StringPrint: two string constants of N1 and N2 arbitrary bytes (valid UTF-8): they print
+// identically exactly when they are equal, and equal strings have equal hashes.
+func VxC08StringPrint() {
+	s1 := vxString("s1", vxParam("N1", 2))
+	s2 := vxString("s2", vxParam("N2", 2))
+	if vxParam("SINGLE", 0) == 1 {
+		// each string is one code point of exactly that many bytes (N >= 2)
+		lead := map[int]byte{2: 0xC0, 3: 0xE0, 4: 0xF0}
+		vxAssume(s1[0] >= lead[len(s1)] && s2[0] >= lead[len(s2)])
+	}
+	vxAssume(utf8.ValidString(s1) && utf8.ValidString(s2))
+	a, b := String(s1), String(s2)
+	pa, pb := a.String(), b.String()
+	vxReach("printed")
+	eq := a.Equals(b)
+	vxAssert(eq == (s1 == s2), "equals-is-structural")
+	if eq {
+		vxAssert(pa == pb, "equal-implies-equal-print")
+		vxAssert(a.Hash() == b.Hash(), "equal-implies-equal-hash")
+	}
+	if pa == pb {
+		vxAssert(eq, "equal-print-implies-equal")
+	}
 }
